@@ -1,7 +1,7 @@
 // C05 — requests are isolated from each other despite context pooling.
 //
 // History search with a differential oracle, on the real code at wire level:
-// every sequence of <= D preceding requests from a 34-letter alphabet (each on the
+// every sequence of <= D preceding requests from a 32-letter alphabet (each on the
 // same keep-alive connection or on a new one) is sent to a fresh application through
 // app.Server().ServeConn, followed by one of 23 probe requests whose handler records
 // the full observation vector. The observation and the raw response bytes must equal
@@ -19,6 +19,13 @@
 // or validated by a subset of the inputs of the value it holds cannot hide behind letters that
 // differ from the probe in everything at once.
 //
+// What a handler DOES with a pooled facility (and what a later handler can look at) has many more
+// variants than the product can afford: they form the wide family (wide.go) — 36 more history
+// letters and 12 more probes, used in histories of ONE request only.
+//
+// Concurrent mixes (concurrent.go): two requests in flight on one application, from fresh pools and
+// after one served request of every kind of exit from the request handler.
+//
 // Pooled-object reuse is made deterministic: worker processes run with GOMAXPROCS=1,
 // all pools are emptied (runtime.GC() twice) before every execution and the collector
 // is switched off during it.
@@ -34,6 +41,7 @@ import (
 	"runtime/pprof"
 	"sort"
 	"strings"
+	"syscall"
 	"time"
 
 	"verifmc/core"
@@ -214,6 +222,10 @@ func category(key string) string {
 		return "bound-data"
 	case key == "render":
 		return "view-binds"
+	case key == "uctx.context":
+		return "user-context"
+	case strings.HasPrefix(key, "api."):
+		return "req-res-views"
 	case key == "req.baseurl":
 		return "baseurl"
 	case key == "req.method":
@@ -264,10 +276,11 @@ func statusOf(resp []byte) string {
 // ---------------------------------------------------------------------------
 
 type checker struct {
-	l        *core.Local
-	baseline [][]string // [cfg][probe]: packed observation of the probe on a fresh application (see pack)
-	memo     map[string]rerun
-	culprits map[string]culprit
+	l         *core.Local
+	baseline  [][]string // [cfg][probe]: packed observation of the probe on a fresh application (see pack)
+	baselineW [][]string // the same on an application that carries the routes of the wide family too (see wideApp)
+	memo      map[string]rerun
+	culprits  map[string]culprit
 }
 
 // pack renders an observation as ONE string (sorted, length-prefixed key/value pairs). The
@@ -304,22 +317,46 @@ func unpack(s string) map[string]string {
 }
 
 // diffBase: the keys in which observation f differs from the fresh-application observation.
-func (ck *checker) diffBase(cfg, probe int, f map[string]string) []string {
-	if pack(f) == ck.base(cfg, probe) {
+func (ck *checker) diffBase(cfg, probe int, wide bool, f map[string]string) []string {
+	if pack(f) == ck.base(cfg, probe, wide) {
 		return nil
 	}
-	return diffKeys(f, unpack(ck.base(cfg, probe)))
+	return diffKeys(f, unpack(ck.base(cfg, probe, wide)))
+}
+
+// wideApp: does the application of the NEXT trace carry the routes of the wide family (wide.go)? They are
+// registered only for traces that contain a wide letter or probe (an application is built per trace, and
+// registering half as many routes again for every trace of the product costs ~10% of the run); a probe is
+// always compared with its fresh-application observation on the SAME kind of application. Set by buildReqs
+// and base; a worker runs one trace at a time.
+var wideApp bool
+
+func needWide(hist []step, probe int) bool {
+	if probe >= coreProbes && probe < mainProbes {
+		return true
+	}
+	for _, h := range hist {
+		if h.L >= coreHist && h.L < mainHist {
+			return true
+		}
+	}
+	return false
 }
 
 // base: the packed fresh-application observation of a probe. The main product's entries are
 // computed up front (computeBaseline); the entries of the derived-value family (many letters,
 // each worker needs few of them) on first use — twice, because the oracle rests on them.
-func (ck *checker) base(cfg, probe int) string {
-	if b := ck.baseline[cfg][probe]; b != "" {
+func (ck *checker) base(cfg, probe int, wide bool) string {
+	tab := ck.baseline
+	if wide {
+		tab = ck.baselineW
+	}
+	if b := tab[cfg][probe]; b != "" {
 		return b
 	}
 	one := func() string {
 		pr := probes[probe]
+		wideApp = wide
 		r := runTraceOpt(cfg, [][]byte{pr.Raw}, []bool{true}, []connAttr{pr.Conn}, true)
 		if r.PanicAt >= 0 {
 			core.Fatal("baseline probe %s panics on a fresh app (cfg %s): %s", pr.Name, cfgNames[cfg], r.PanicMsg)
@@ -330,7 +367,7 @@ func (ck *checker) base(cfg, probe int) string {
 	if a != b {
 		core.Fatal("fresh-app observation is not reproducible: cfg=%s probe=%s keys=%v", cfgNames[cfg], probes[probe].Name, diffKeys(unpack(a), unpack(b)))
 	}
-	ck.baseline[cfg][probe] = a
+	tab[cfg][probe] = a
 	return a
 }
 
@@ -341,7 +378,8 @@ func (ck *checker) computeBaseline() [][]string {
 		if c >= mainCfgs {
 			continue
 		}
-		for p, pr := range probes[:mainProbes] {
+		wideApp = false
+		for p, pr := range probes[:coreProbes] { // everything else is computed on first use (base)
 			r := runTrace(c, [][]byte{pr.Raw}, []bool{true})
 			if r.PanicAt >= 0 {
 				core.Fatal("baseline probe %s panics on a fresh app (cfg %s): %s", pr.Name, cfgNames[c], r.PanicMsg)
@@ -387,6 +425,7 @@ func buildReqs(hist []step, probe int, probeNew bool) ([][]byte, []bool, []connA
 	reqs = append(reqs, probes[probe].Raw)
 	nc = append(nc, probeNew)
 	note(len(hist), probes[probe].Conn)
+	wideApp = needWide(hist, probe)
 	return reqs, nc, attrs
 }
 
@@ -424,7 +463,7 @@ func (ck *checker) violatesFresh(cfg int, hist []step, probe int, probeNew bool)
 		return rerun{}
 	}
 	f := flat(r, len(hist))
-	d := ck.diffBase(cfg, probe, f)
+	d := ck.diffBase(cfg, probe, needWide(hist, probe), f)
 	v := rerun{Diff: d, Obs: map[string]string{}}
 	for _, k := range d {
 		v.Obs[k] = f[k]
@@ -518,18 +557,30 @@ func (ck *checker) culpritInfo(cfg int, hist []step, probeNew bool) culprit {
 		return c
 	}
 	var keys, seen []string
-	for p := range probes[:mainProbes] {
+	for p := range probes[:coreProbes] { // the probes of the product name the victims; a wide probe is added by the caller
 		if v := ck.violates(cfg, hist, p, probeNew); len(v.Diff) > 0 {
 			keys = append(keys, v.Diff...)
 			seen = append(seen, probes[p].Name)
 		}
 	}
 	c := culprit{Leaked: categories(keys), SeenBy: strings.Join(seen, ",")}
-	if len(seen) == mainProbes {
+	if len(seen) == coreProbes {
 		c.SeenBy = "every-probe"
 	}
 	ck.culprits[key] = c
 	return c
+}
+
+// culpritWide: the description of a culprit that only probes of the wide family can see.
+func (ck *checker) culpritWide(cfg int, hist []step, probeNew bool) culprit {
+	var keys, seen []string
+	for p := coreProbes; p < mainProbes; p++ {
+		if v := ck.violates(cfg, hist, p, probeNew); len(v.Diff) > 0 {
+			keys = append(keys, v.Diff...)
+			seen = append(seen, probes[p].Name)
+		}
+	}
+	return culprit{Leaked: categories(keys), SeenBy: strings.Join(seen, ",")}
 }
 
 // check runs one trace and compares the probe with the fresh run. flush=false is used for
@@ -562,9 +613,10 @@ func (ck *checker) check(cfg int, hist []step, probe int, probeNew, flush bool) 
 		l.Add("traces_with_several_connections", 1)
 	}
 	f := flat(r, pi)
-	d := ck.diffBase(cfg, probe, f)
+	d := ck.diffBase(cfg, probe, needWide(hist, probe), f)
 	l.Outcome(fmt.Sprintf("probe=%s status=%s equal-to-fresh=%v", probes[probe].Name, statusOf(r.Resp[pi]), len(d) == 0))
-	if len(hist) >= 2 && hist[0].L == 7 && hist[0].L != hist[1].L && probe == (hist[1].L+len(hist))%mainProbes && cfg == hist[1].L%3 {
+	if (len(hist) >= 2 && hist[0].L == 7 && hist[0].L != hist[1].L && probe == (hist[1].L+len(hist))%coreProbes && cfg == hist[1].L%3) ||
+		(len(hist) == 1 && hist[0].L >= coreHist && probe == (hist[0].L*5)%mainProbes && cfg == hist[0].L%3 && !probeNew) {
 		var hs []string
 		for k := range hist {
 			hs = append(hs, statusOf(r.Resp[k]))
@@ -592,6 +644,10 @@ func (ck *checker) check(cfg int, hist []step, probe int, probeNew, flush bool) 
 		core.Fatal("minimised history no longer differs: cfg=%s history=%s probe=%s", cfgNames[cfg], histNames(minHist), probes[probe].Name)
 	}
 	cu := ck.culpritInfo(cfg, minHist, minProbeNew)
+	if cu.SeenBy == "" {
+		// no probe of the product sees it: described by the probes of the wide family (whichever of them found it)
+		cu = ck.culpritWide(cfg, minHist, minProbeNew)
+	}
 	sig := fmt.Sprintf("history-leaks-into-later-request after=%s leaked=%s seen-by=%s conn=%s", histNames(minHist), cu.Leaked, cu.SeenBy, connClass)
 	if _, seen := l.P.Violations[sig]; !seen {
 		// determinism: the same trace must differ in the same way when it is executed again
@@ -606,7 +662,7 @@ func (ck *checker) check(cfg int, hist []step, probe int, probeNew, flush bool) 
 		}
 	}
 	expd := map[string]string{}
-	fresh := unpack(ck.base(cfg, probe))
+	fresh := unpack(ck.base(cfg, probe, needWide(minHist, probe)))
 	for _, k := range mv.Diff {
 		expd[k] = fresh[k]
 	}
@@ -625,14 +681,27 @@ func enumHistories(depth int) [][]int {
 		if len(cur) == depth {
 			return
 		}
-		for l := range historyAlphabet[:mainHist] {
+		for l := range historyAlphabet[:coreHist] {
 			nxt := append(append([]int(nil), cur...), l)
 			out = append(out, nxt)
 			rec(nxt)
 		}
 	}
 	rec(nil)
+	// the wide family: histories of one request
+	for l := coreHist; l < mainHist && depth >= 1; l++ {
+		out = append(out, []int{l})
+	}
 	return out
+}
+
+// probesFor: the probes that follow history h — the product's probes, and after at most one
+// preceding request the probes of the wide family too.
+func probesFor(h []int) int {
+	if len(h) <= 1 {
+		return mainProbes
+	}
+	return coreProbes
 }
 
 // histories up to this length get every same/new connection pattern and a pool flush
@@ -670,7 +739,38 @@ func main() {
 		debug.SetGCPercent(-1)
 		buildAlphabets()
 		for _, p := range probes {
+			wideApp = true
 			fmt.Printf("--- %s\n%q\n=> %q\n", p.Name, p.Raw, runRaw(0, p.Raw))
+		}
+		for _, p := range historyAlphabet[:mainHist] {
+			wideApp = true
+			fmt.Printf("--- history letter %s\n%q\n=> %q\n", p.Name, p.Raw, runRaw(0, p.Raw))
+		}
+		cleanupFiles()
+		return
+	}
+
+	if os.Getenv("C05_BENCH") != "" {
+		// development aid: CPU cost of one trace (history of two requests + probe), with and without pool flush
+		debug.SetGCPercent(-1)
+		buildAlphabets()
+		reqs, nc, attrs := buildReqs([]step{{L: 1, New: true}, {L: 4, New: false}}, 0, false)
+		for _, flush := range []bool{true, false} {
+			cpu := func() time.Duration {
+				var ru syscall.Rusage
+				_ = syscall.Getrusage(syscall.RUSAGE_SELF, &ru)
+				return time.Duration(ru.Utime.Nano() + ru.Stime.Nano())
+			}
+			t0 := cpu()
+			const n = 4000
+			for i := 0; i < n; i++ {
+				if !flush && i%23 == 0 {
+					runtime.GC()
+					runtime.GC()
+				}
+				runTraceOpt(0, reqs, nc, attrs, flush)
+			}
+			fmt.Printf("flush=%v: %.1f us per trace\n", flush, float64((cpu()-t0).Microseconds())/n)
 		}
 		cleanupFiles()
 		return
@@ -697,11 +797,18 @@ func main() {
 	debug.SetGCPercent(-1)
 	buildAlphabets()
 	var hnames, pnames []string
-	for _, l := range historyAlphabet[:mainHist] {
+	for _, l := range historyAlphabet[:coreHist] {
 		hnames = append(hnames, l.Name)
 	}
-	for _, p := range probes[:mainProbes] {
+	for _, p := range probes[:coreProbes] {
 		pnames = append(pnames, p.Name)
+	}
+	var wideH, wideP []string
+	for _, l := range historyAlphabet[coreHist:mainHist] {
+		wideH = append(wideH, l.Name+": "+l.Note)
+	}
+	for _, p := range probes[coreProbes:mainProbes] {
+		wideP = append(wideP, p.Name)
 	}
 	c := r.P.Counters
 	if c["traces"] > 0 && c["probe_served_by_reused_ctx"] == 0 {
@@ -734,11 +841,11 @@ func main() {
 				"derived_value_family":     dvBounds(),
 				"derived_value_inputs_changing_only_the_raw_header_dump": dvBlind,
 			},
-			"rule": "states = distinct (config, history, connection pattern) triples; transitions = requests served through ServeConn in compared traces; a trace = history + probe served by a fresh application (pool flush: see assumptions), whose probe observation vector and raw response bytes are compared key by key with the same probe sent first to a fresh application after a pool flush; the traces of the derived-value family (counters dv_*: one history member + one probe member differing in exactly one request input, see bounds.derived_value_family) are included in traces and transitions but not in states",
+			"rule": "states = distinct (config, history, connection pattern) triples; transitions = requests served through ServeConn in compared traces; a trace = history + probe served by a fresh application (pool flush: see assumptions), whose probe observation vector and raw response bytes are compared key by key with the same probe sent first to a fresh application after a pool flush; the traces of the wide family (counter wide_traces: histories of one request that contain a wide letter or end in a wide probe, see bounds.wide_family; their applications carry the family's routes and are compared with fresh applications that carry them too) are included in states, traces and transitions; the traces of the derived-value family (counters dv_*: one history member + one probe member differing in exactly one request input, see bounds.derived_value_family) are included in traces and transitions but not in states",
 		},
 		Assumptions: []string{
-			fmt.Sprintf("pool flush (runtime.GC() x2) before every trace with <= %d preceding requests (exception: after 2 or more preceding requests, traces whose probe or history contains a letter of the application-state family follow the rule for longer histories); for longer histories before the first of the %d probe traces of a (config, history, connection pattern) — the others run on a fresh application but with the process-global pools as the previous trace left them, and any difference found is re-run after a flush", fullPatternDepth, mainProbes),
-			"histories are sequential (one request at a time, GOMAXPROCS=1, GC off during a trace so pooled objects are reused deterministically); concurrent mixes are a separate part: every ordered pair of 7 request kinds (route parameters, wildcard + flash cookie, JSON / form binding, redirect with flash, 404) in flight on one application, all interleavings with <= 2 preemptions at handler/middleware yields and at every pool / mutex / atomic operation of the core and binder packages, each response compared with the same request served alone (counters cc_executions, cc_points)",
+			fmt.Sprintf("pool flush (runtime.GC() x2) before every trace with <= %d preceding requests (exception: after 2 or more preceding requests, traces whose probe or history contains a letter of the application-state family follow the rule for longer histories); for longer histories before the first of the %d probe traces of a (config, history, connection pattern) — the others run on a fresh application but with the process-global pools as the previous trace left them, and any difference found is re-run after a flush", fullPatternDepth, coreProbes),
+			"histories are sequential (one request at a time, GOMAXPROCS=1, GC off during a trace so pooled objects are reused deterministically); concurrent mixes are a separate part: every ordered pair of 7 request kinds (route parameters, wildcard + flash cookie, JSON / form binding, redirect with flash, 404) in flight on one application, all interleavings with <= 2 preemptions at handler/middleware yields and at every pool / mutex / atomic operation of the core and binder packages, each response compared with the same request served alone (counters cc_executions, cc_points); and histories x schedules: the same exploration (5 request kinds incl. two different flash redirects, every unordered pair, <= 1 preemption in quick / 2 in thorough) on an application that has already served ONE request — unknown method | 404 | 405 | flash cookie | redirect with flash | failed binding | handler error — compared with the request served alone after the same warm-up (counter cc_executions_after_history)",
 			"wire level through app.Server().ServeConn on an in-memory connection that delivers one request per read; fasthttp's worker pool (goroutine reuse) is bypassed, its RequestCtx pool and fiber's ctx/redirect/binder pools are real",
 			"Date header disabled (Config.DisableDefaultDate); no Server header",
 			"flash-cookie array headers are kept small enough not to exhaust memory (C12 covers allocation)",
@@ -811,6 +918,10 @@ func worker(r *core.Run, depth int) {
 	buildAlphabets()
 	ck := &checker{l: core.NewLocal(), memo: map[string]rerun{}, culprits: map[string]culprit{}}
 	ck.baseline = ck.computeBaseline()
+	ck.baselineW = make([][]string, len(cfgNames))
+	for c := range ck.baselineW {
+		ck.baselineW[c] = make([]string, len(probes))
+	}
 	if d := sameBaseline(ck.baseline, ck.computeBaseline()); d != "" {
 		core.Fatal("fresh-app observation is not reproducible: %s", d)
 	}
@@ -868,8 +979,11 @@ outer:
 				probeNew := n == 0 || pat&(1<<(n-1)) != 0
 				ck.l.Add("states", 1)
 				ck.l.Add(fmt.Sprintf("states_with_%d_preceding", n), 1)
-				for p := range probes[:mainProbes] {
+				for p := 0; p < probesFor(h); p++ {
 					ck.check(cfg, hist, p, probeNew, flushBefore(h, p))
+					if p >= coreProbes || (n == 1 && h[0] >= coreHist) {
+						ck.l.Add("wide_traces", 1)
+					}
 				}
 			}
 		}
@@ -879,6 +993,17 @@ outer:
 	}
 	if d := sameBaseline(ck.baseline, ck.computeBaseline()); d != "" {
 		core.Fatal("fresh-app observation drifted during the run: %s", d)
+	}
+	for c := range ck.baselineW { // the observations taken on first use (applications with the wide family's routes)
+		for p, old := range ck.baselineW[c] {
+			if old == "" {
+				continue
+			}
+			ck.baselineW[c][p] = ""
+			if now := ck.base(c, p, true); now != old {
+				core.Fatal("fresh-app observation drifted during the run: cfg=%s probe=%s (wide application) keys=%v", cfgNames[c], probes[p].Name, diffKeys(unpack(now), unpack(old)))
+			}
+		}
 	}
 	if os.Getenv("C05_TIMING") != "" {
 		fmt.Fprintf(os.Stderr, "worker %d: all done at %.1fs\n", r.Worker, time.Since(r.Start).Seconds())
